@@ -4,7 +4,6 @@ import (
 	"strconv"
 	"go/types"
 	"regexp"
-	"strings"
 
 	"golang.org/x/tools/go/ssa"
 
@@ -288,40 +287,9 @@ func addStubIntrinsics(t map[string]intrinsic) {
 		return Tuple{(*Value)(nil), Iface{}}
 	}
 	t[cellib+".Library"] = func(m *Machine, fr *frame, a []Value) Value { return (*Closure)(nil) }
-	t[cellib+".CompileExpression"] = func(m *Machine, fr *frame, a []Value) Value {
-		cell := new(Value)
-		*cell = Struct{a[1], Iface{}} // msg := expression text, p := nil
-		return Tuple{cell, Iface{}}
-	}
-	t["(*"+cellib+".CompiledExpression).Eval"] = func(m *Machine, fr *frame, a []Value) Value {
-		p := m.ptrArg(a[0], "CompiledExpression.Eval")
-		text, _ := (*p).(Struct)[0].(Str).Concrete()
-		outcome := -1
-		switch {
-		case text == "true":
-			outcome = 0
-		case text == "false":
-			outcome = 1
-		case len(text) > 0 && strings.Contains(text, "verif-no-such-key"):
-			outcome = 2
-		default:
-			outcome = m.namedChoice("cel:"+text, 3)
-		}
-		switch outcome {
-		case 0:
-			return Iface{}
-		case 1:
-			et := m.lookupType(cellib, "EvalError")
-			cell := new(Value)
-			*cell = Struct{m.mkStr("expression evaluated to false")}
-			return Iface{T: types.NewPointer(et), V: cell}
-		default:
-			et := m.lookupType("errors", "errorString")
-			cell := new(Value)
-			*cell = Struct{m.mkStr("no such key")}
-			return Iface{T: types.NewPointer(et), V: cell}
-		}
-	}
+	// cellib.CompileExpression itself is replaced by the harness stand-in verifStub_CompileExpression (package
+	// cellib): the compiled program interprets the canonical texts; heimdall's CompiledExpression.Eval runs for real
+	_ = cellib
 }
 
 func (m *Machine) deepCopyTree(v Value) Value {
